@@ -603,6 +603,26 @@ fn sweep_cases(kind: &str, lens: impl Iterator<Item = usize>) -> Vec<Case> {
     v
 }
 
+/// File-API replacement by a store one byte longer / shorter (both parities): `save_jumbf_to_file` first tries the
+/// handler's in-place patch path, whose size test is exactly where an off-by-one (e.g. a RIFF pad byte) would hide.
+fn adjacent_file_cases(kind: &str, lens: impl Iterator<Item = usize>) -> Vec<Case> {
+    let mut v = vec![];
+    for len in lens {
+        let len = len.max(min_a(kind));
+        let seed = (len as u64).wrapping_mul(0x51_7C_C1B7) >> 5;
+        for (a, b) in [(len, len + 1), (len + 1, len), (len, len)] {
+            v.push(Case {
+                kind: kind.into(),
+                asset: AssetSrc::Default,
+                class_b: false,
+                via_file: true,
+                ops: vec![Op::Write { len: a, seed: seed ^ 1 }, Op::Write { len: b, seed }],
+            });
+        }
+    }
+    v
+}
+
 /// ID3v2.4 stores sizes as 4 x 7 bits: find the store lengths at which the GEOB frame size and the tag size of
 /// the default asset cross 2^7 and 2^14 (input selection only; measured on the SDK's own output with the walker).
 fn id3_boundaries(kind: &str) -> Vec<usize> {
@@ -702,6 +722,13 @@ fn main() {
         };
         run.count_n(&format!("sweep_cases:{k}"), cases.len() as u64);
         run.drive_enum_par(&format!("sweep-{k}"), cases, 16, |c| judge(&run, &env, c));
+    }
+    // ---- file-API replacement by an adjacent length ---------------------------------------------------------
+    for k in &kinds {
+        let top = run.scale(70usize, 1200usize);
+        let cases = adjacent_file_cases(k, min_a(k)..=top);
+        run.count_n(&format!("adjacent_file_cases:{k}"), cases.len() as u64);
+        run.drive_enum_par(&format!("adjacent-file-{k}"), cases, 8, |c| judge(&run, &env, c));
     }
     run.set_exhaustive(false);
 
